@@ -122,7 +122,16 @@ def spot_events(optic, kind, obj, cfg, dist_pts, info, wl, pi):
             else:
                 ax, ay, ai = [], [], []
             c = {"h": [dy(fld[0]), dy(fld[1])], "w": dy(float(w)), "ax": dyl(ax), "ay": dyl(ay), "ai": dyl(ai)}
-            if dist_pts is not None:
+            vig = bool(np.any(np.asarray(optic.fields.vx) != 0) or np.any(np.asarray(optic.fields.vy) != 0))
+            if dist_pts is not None and vig and cfg["dist"] != "random_seeded":
+                # a lens with vignetting factors: the documented pupil sample of a field is the named
+                # distribution compressed by that field's factors - the rays Optic.trace itself launches
+                # for (field, wavelength, ray count, distribution name)
+                G.quiet(optic.trace, float(fld[0]), float(fld[1]), float(w), cfg["npar"], cfg["dist"])
+                sg = optic.surface_group
+                r = {k: np.array(getattr(sg, k), dtype=float) for k in ("x", "y", "intensity")}
+                c.update(rx=dyl(r["x"][-1]), ry=dyl(r["y"][-1]), ri=dyl(r["intensity"][-1]), indep=True)
+            elif dist_pts is not None:
                 r = trace_pts(optic, fld[0], fld[1], dist_pts[0], dist_pts[1], w)
                 c.update(rx=dyl(r["x"][-1]), ry=dyl(r["y"][-1]), ri=dyl(r["intensity"][-1]), indep=True)
             else:
